@@ -40,16 +40,29 @@ src=/tmp/seed/$id/out; demo=demo; [ "$sub" = b ] && demo=demo2
 if [ -d $d/demo ]; then src=$d; demo=demo; fi
 if [ -d $src/$demo ]; then
   mkdir -p out; rm -rf out/$demo; cp -r $src/$demo out/$demo
-  tf=$(find out/$demo -name '*_test.go' | head -1)
-  if [ -n "$tf" ] && grep -q "^package" $tf; then
-    pkgdir=$(dirname $tf)
-    # in-package demos (package name of an existing package) are copied next to that package as their README says
-    target=$(grep -ho "cp [^ ]* [^ ]*pkg/[^ ]*" out/$demo/README.md 2>/dev/null | head -1 | awk '{print $3}')
-    if [ -n "$target" ]; then tdir=$target; case $target in */) mkdir -p $target;; esac; [ -d "$tdir" ] || tdir=$(dirname $target); cp $tf $tdir/; pkgdir=${tdir%/}; fi
-    go test -vet=off -count=1 ./$pkgdir/ -run 'C[0-9]|Test' > /tmp/cfd.$$.log 2>&1; with=$?
+  # every "cp <demo file>_test.go <destination under pkg/ or cmd/>" line of the README is honoured (file or directory target);
+  # demo files without such a line go to the directory the first line names
+  pkgdirs=""
+  ncopied=0
+  while read -r srcf dst; do
+    [ -z "$srcf" ] && continue
+    f=out/$demo/$(basename $srcf)
+    [ -f "$f" ] || continue
+    case $dst in */) mkdir -p $dst; cp $f $dst; pd=${dst%/};; *_test.go) mkdir -p $(dirname $dst); cp $f $dst; pd=$(dirname $dst);; *) if [ -d "$dst" ]; then cp $f $dst/; pd=$dst; else mkdir -p $dst; cp $f $dst/; pd=$dst; fi;; esac
+    pkgdirs="$pkgdirs ./$pd/"
+    ncopied=$((ncopied+1))
+  done < <(grep -hoE "cp +[^ ]*_test\.go +[^ ]*(pkg|cmd)/[^ ]*" out/$demo/README.md 2>/dev/null | awk '{print $2, $3}')
+  if [ $ncopied -eq 0 ]; then
+    tf=$(find out/$demo -name '*_test.go' | head -1)
+    [ -n "$tf" ] && pkgdirs="./$(dirname $tf)/"
+  fi
+  pkgdirs=$(echo $pkgdirs | tr ' ' '\n' | sort -u | tr '\n' ' ')
+  if [ -n "$pkgdirs" ]; then
+    go test -vet=off -count=1 $pkgdirs > /tmp/cfd.$$.log 2>&1; with=$?
     git apply -R $d/patch.diff
-    go test -vet=off -count=1 ./$pkgdir/ -run 'C[0-9]|Test' > /tmp/cfd2.$$.log 2>&1; without=$?
-    log "DEMO: with patch exit=$with (expected non-zero), without patch exit=$without (expected 0) [$pkgdir]"
+    go test -vet=off -count=1 $pkgdirs > /tmp/cfd2.$$.log 2>&1; without=$?
+    log "DEMO: with patch exit=$with (expected non-zero), without patch exit=$without (expected 0) [$pkgdirs]"
+    [ $without -ne 0 ] && grep -E "^(--- FAIL|FAIL|panic)" /tmp/cfd2.$$.log | head -5 >> $out
     rm -f /tmp/cfd.$$.log /tmp/cfd2.$$.log
   else
     log "DEMO: no go test file found (manual)"
